@@ -423,6 +423,9 @@ func byteViews(r *core.Run) {
 	// IOBitReadSeeker positioned inside a byte, a multi reader ending in one, a window
 	// declared longer than such a source): the zero padded last byte must still come
 	eofSources(r, all, src)
+	if r.ShardIdx == 1%r.ShardN {
+		faultSources(r, all)
+	}
 
 	// IOBitWriter: every sequence of WriteBits(n) of length <= 4 then Flush
 	ws := []int64{0, 1, 3, 8, 9, 17}
